@@ -6,6 +6,11 @@ import scipy.sparse as sp
 
 from .. import hier
 
+def _nn(v):
+    """NaN counts as 'exceeds every bound' in the oracle comparisons"""
+    return np.inf if np.isnan(v) else v
+
+
 TECHNIQUE = 'Coq proof of cache coherence => history independence + bit-exact history correspondence, attribute-set diff, byte comparison of inputs'
 LEVEL_TEXT = ('Kernel-checked theorems (Props/C15.v): in the model of a built solver (immutable hierarchy + lazily filled '
               'caches whose values are functions of the hierarchy, read through compute-if-absent) every operation '
@@ -177,7 +182,7 @@ def formats(ctx):
             ctx.case(('format', bname, fmt), True)
             ctx.count('format:' + fmt)
             now = M if fmt == 'dense' else M.toarray()
-            if np.abs(now - keep).max() > 0 or np.abs(B - Bk).max() > 0:
+            if _nn(np.abs(now - keep).max()) > 0 or _nn(np.abs(B - Bk).max()) > 0:
                 ctx.fail('setup-modifies-input/%s/%s' % (bname, fmt), 'numerical content of A or B changed', case)
             sizes = [L.A.shape[0] for L in ml.levels]
             dense = [hier.dense_of(L.A) for L in ml.levels]
@@ -188,7 +193,7 @@ def formats(ctx):
                 ctx.fail('format-dependent-hierarchy/' + bname, '%s gives level sizes %s, %s gives %s' % (fmt, sizes, ref[2], ref[0]), case)
             else:
                 for l, (a, b_) in enumerate(zip(dense, ref[1])):
-                    if np.abs(a - b_).max() > 1e-12 * (1 + np.abs(b_).max()):
+                    if _nn(np.abs(a - b_).max()) > 1e-12 * (1 + np.abs(b_).max()):
                         ctx.fail('format-dependent-hierarchy/' + bname, 'level %d matrix differs between %s and %s' % (l, fmt, ref[2]), case)
                         break
     ctx.corr_relations = ['observed solve after a random history == same solve on a fresh solver (bit-identical)',
